@@ -19,6 +19,7 @@ import (
 	"github.com/octohelm/gengo/pkg/gengo"
 	"github.com/octohelm/gengo/pkg/gengo/snippet"
 
+	"verif/fixtures/holder"
 	"verif/internal/pipeline"
 )
 
@@ -120,7 +121,7 @@ func Build(specs []GenSpec) []gengo.Generator {
 						time.Sleep(time.Hour)
 					}
 					switch bh.Mode {
-					case "nothing", "skip", "ignore-nothing", "alias-only", "alias-ignore-nothing", "wrapped-skip", "wrapped-ignore":
+					case "nothing", "skip", "ignore-nothing", "alias-only", "alias-ignore-nothing", "wrapped-skip", "wrapped-ignore", "ignore-then-skip", "skip-then-ignore", "ignore-then-nil":
 					default:
 						c.RenderT("// deferred @n @k\n", snippet.Arg("n", snippet.Block(name)), snippet.Arg("k", snippet.Block(fmt.Sprint(k))))
 					}
@@ -160,6 +161,21 @@ func Build(specs []GenSpec) []gengo.Generator {
 				render(c, bh, name)
 			case "skip":
 				return gengo.ErrSkip
+			case "ignore-then-skip":
+				// ErrIgnore for the first type, ErrSkip for the later ones: nothing rendered, the ignore must stick
+				if idx == 0 {
+					return gengo.ErrIgnore
+				}
+				return gengo.ErrSkip
+			case "skip-then-ignore":
+				if idx == 0 {
+					return gengo.ErrSkip
+				}
+				return gengo.ErrIgnore
+			case "ignore-then-nil":
+				if idx == 0 {
+					return gengo.ErrIgnore
+				}
 			case "ignore-nothing":
 				return gengo.ErrIgnore
 			case "ignore-something":
@@ -238,8 +254,10 @@ func (b Behav) RendersSomething(hasTypes, hasAliases, isAliasGen bool) bool {
 // Ignored: does the behaviour signal ErrIgnore without rendering?
 func (b Behav) IgnoresWithoutOutput(hasTypes, hasAliases, isAliasGen bool) bool {
 	switch b.Mode {
-	case "ignore-nothing":
+	case "ignore-nothing", "ignore-then-skip", "ignore-then-nil":
 		return hasTypes
+	case "skip-then-ignore":
+		return hasTypes // every package of the layouts has at least two defined types
 	case "alias-ignore-nothing":
 		return isAliasGen && hasAliases
 	}
@@ -461,6 +479,12 @@ func observe(c gengo.Context, bh Behav, gen string, named *types.Named) {
 	vals["imports"] = strings.Join(ips, ",")
 	// a map-valued Value with many keys: the dumper must emit it in a fixed order
 	c.RenderT("var _ = @v\n\n", snippet.Arg("v", snippet.Value(vals)))
+	if named.Obj().Name() == "Anchor" {
+		// entries whose values reference two packages that want the same import name: which one gets the short
+		// name must not depend on the order in which the map is walked (rendered as a comment: the fixture
+		// packages are not importable from the scratch module)
+		c.RenderT("/*\n@v\n*/\n\n", snippet.Arg("v", snippet.Value(holder.Sample())))
+	}
 	for _, ip := range bh.Imports {
 		c.RenderT("var _ @t\n\n", snippet.Arg("t", snippet.ID(ip)))
 	}
